@@ -233,6 +233,8 @@ def chk_case(case, note):
     for bi, buf in enumerate(case["buffers"]):
         # every buffer has its own noise level: each pulse of the buffer is >= 10 dB above each of its noise samples
         nlevel = min(buf.get("rho", case["rho"]) * min_amp(buf), 0.19)
+        if buf.get("additive") and any(it.get("smear") for it in buf["items"]):
+            buf = dict(buf, additive=False)   # a smeared bit (two chips 1.5 % apart) would be decided by the noise: the two devices are not combined
         if buf.get("additive"):
             nlevel = min(nlevel, min_amp(buf) / 5.0)   # noise under the pulses: judged from 14 dB up (see ASSUMPTIONS)
             note.cls("noise-under-the-pulses")
